@@ -204,8 +204,24 @@ def _exec_life(sc):
                         o3.compute_all_ranks()
                         o.compute_all_ranks()
                         evs.append({"ev": "same", "what": "ranks-after-impacts-" + fmt, "a": proj_ranks(o, n), "b": proj_ranks(o3, n)})
-                    o4 = type(o).init_with_impacts_list(bb, o.save_impacts())
+                    vec = o.save_impacts()
+                    o4 = type(o).init_with_impacts_list(bb, vec)
                     evs.append({"ev": "same", "what": "impacts-list", "a": [int(x) for x in o._impacts], "b": [int(x) for x in o4._impacts]})
+                    # the vector is a value: what the caller does with its own list afterwards (or with an exported one)
+                    # is no transition of either object -- lazy ranking on the copy continues as on the original
+                    for j in range(len(vec)):
+                        vec[j] += 1 + j
+                    out_vec = o4.save_impacts()
+                    for j in range(len(out_vec)):
+                        out_vec[j] += 2
+                    evs.append({"ev": "same", "what": "impacts-list-after-caller-mutation", "a": [int(x) for x in o._impacts], "b": [int(x) for x in o4._impacts]})
+                    o4.compute_all_ranks()
+                    o.compute_all_ranks()
+                    evs.append({"ev": "same", "what": "ranks-after-impacts-list", "a": proj_ranks(o, n), "b": proj_ranks(o4, n)})
+                    vec2 = [int(x) for x in o._impacts]
+                    o4.load_impacts(vec2)
+                    vec2[:] = [x + 3 for x in vec2]
+                    evs.append({"ev": "same", "what": "impacts-load-after-caller-mutation", "a": [int(x) for x in o._impacts], "b": [int(x) for x in o4._impacts]})
                 elif k == "meta":
                     md = {"s": "text", "i": 3, "l": [1, 2, {"x": None}], "b": True, "f": 0.5}
                     for kk, vv in md.items():
